@@ -238,6 +238,29 @@ def c_rename(ctx, src, dst):
   return None
 
 
+def c_copy(ctx, src, dst, *a, **k):
+  """shutil.copy / copyfile / copy2: NOT atomic - the destination is created and filled block by block."""
+  if not (isinstance(src, PathV) and isinstance(dst, PathV)):
+    raise Unsupported('copy arguments')
+  fault(ctx, 'copy')
+  g = ctx.ghost
+  es, ws = fstate(ctx, src.label)
+  ctx.oblige('copy.src.exists', es, kind='definedness', detail='FileNotFoundError in shutil.copy')
+  fstate(ctx, dst.label)
+  g['exists:' + dst.label] = z3.BoolVal(True)
+  if dst.is_final:
+    ctx.tags['totals'].setdefault(dst.label, dst.total)
+  n = ctx.fresh('copied_so_far')
+  ctx.assume(z3.And(0 <= n, n <= ws))
+  g['written:' + dst.label] = n
+  crash_point(ctx, f'copy({src.label} -> {dst.label}) (any number of bytes copied so far)')
+  if ctx.branch(ctx.fresh('fault_copy_mid', 'bool')):
+    raise RaiseSig(ExcV('OSError'))
+  g['written:' + dst.label] = ws
+  crash_point(ctx, f'copy({src.label} -> {dst.label}) finished')
+  return None
+
+
 def c_exists(ctx, path):
   if not isinstance(path, PathV):
     raise Unsupported('exists path')
@@ -300,7 +323,8 @@ def globals_():
       'default_cache_dir': Handler(lambda ctx: StrV(), 'default_cache_dir'),
       'lzma': Module('lzma', {'open': Handler(c_lzma_open, 'lzma.open')}),
       'shutil': Module('shutil', {'copyfileobj': Handler(c_copyfileobj, 'copyfileobj'),
-                                  'move': Handler(c_rename, 'shutil.move')}),
+                                  'move': Handler(c_rename, 'shutil.move'), 'copy': Handler(c_copy, 'shutil.copy'),
+                                  'copyfile': Handler(c_copy, 'shutil.copyfile'), 'copy2': Handler(c_copy, 'shutil.copy2')}),
       'hashlib': Module('hashlib', {'sha256': Handler(lambda ctx, d: ShaV(d), 'sha256')}),
   }
 
